@@ -51,6 +51,18 @@ def targets(ctx):
         guard("dump", m.dump, s)
         if s.getvalue() != b:
             out.append(("dump_vs_bytes", f"dump={s.getvalue().hex()[:200]} bytes={b.hex()[:200]}"))
+        class Keep:  # a sink that keeps the chunks it is handed instead of copying them
+            def __init__(self):
+                self.chunks = []
+
+            def write(self, x):
+                self.chunks.append(x)
+                return len(x)
+
+        k = Keep()
+        guard("dump_keeping_sink", m.dump, k)
+        if b"".join(bytes(x) for x in k.chunks) != b:
+            out.append(("dump_chunks_vs_bytes", f"chunks={b''.join(bytes(x) for x in k.chunks).hex()[:200]} bytes={b.hex()[:200]}"))
         s = BytesIO()
         guard("dump_delimited", m.dump, s, betterproto.SIZE_DELIMITED)
         want = wire.enc_varint(len(b)) + b
